@@ -700,12 +700,13 @@ theorem good_setState (w : World) (x : Nat) (e : Exec) (s : St) (he : w.execs[x]
       · exact Or.inr (Or.inl h5)
 
 /-- the loop over the sub-workflows inside pause_workflow -/
-theorem good_kids (c : Cfg) (f : Nat) (m : Mode) (hm : ∀ w x, Good w (prop c f m w x).1) (l : List Nat) :
+theorem good_kids (c : Cfg) (f : Nat) (m m' : Mode) (hm : ∀ w x, Good w (prop c f m w x).1)
+    (hm' : ∀ w x, Good w (prop c f m' w x).1) (l : List Nat) :
     ∀ (w0 : World) (acc : World × Bool), Good w0 acc.1 →
       Good w0 (l.foldl (fun (acc : World × Bool) k =>
         if acc.2 then acc else
         match acc.1.execs[k]? with
-        | some ek => if isCompleted ek.state then acc else prop c f m acc.1 k
+        | some ek => if isCompleted ek.state then prop c f m' acc.1 k else prop c f m acc.1 k
         | none => acc) acc).1 := by
   induction l with
   | nil => intro w0 acc h; exact h
@@ -717,7 +718,7 @@ theorem good_kids (c : Cfg) (f : Nat) (m : Mode) (hm : ∀ w x, Good w (prop c f
     · exact h
     · split
       · split
-        · exact h
+        · exact h.trans (hm' _ _)
         · exact h.trans (hm _ _)
       · exact h
 
@@ -729,13 +730,26 @@ theorem pausedOrIdle_not_completed (s : St) (h : isPausedOrIdle s = true) : isCo
 theorem good_prop (c : Cfg) : ∀ (f : Nat) (m : Mode) (w : World) (x : Nat), Good w (prop c f m w x).1 := by
   intro f
   induction f with
-  | zero => intro m w x; exact Good.refl w
+  | zero =>
+    intro m w x
+    cases m with
+    | update =>
+      simp only [prop, updateLocal]
+      split
+      · exact Good.refl w
+      · split
+        · exact Good.refl w
+        · exact good_taskUpdate w _ _
+    | pause => exact Good.refl w
+    | resume => exact Good.refl w
+    | belowP => exact Good.refl w
+    | belowR => exact Good.refl w
   | succ f ih =>
     intro m w x
     cases m with
     | pause =>
       simp only [prop]
-      have hk := good_kids c f .pause (ih .pause) (kidsOf w x) w (w, false) (Good.refl w)
+      have hk := good_kids c f .pause .belowP (ih .pause) (ih .belowP) (kidsOf w x) w (w, false) (Good.refl w)
       generalize (kidsOf w x).foldl _ (w, false) = r at hk ⊢
       split
       · exact hk
@@ -761,7 +775,7 @@ theorem good_prop (c : Cfg) : ∀ (f : Nat) (m : Mode) (w : World) (x : Nat), Go
       · exact Good.refl w
       · split
         · exact Good.refl w
-        · have hk := good_kids c f .resume (ih .resume) (kidsOf w x) w (w, false) (Good.refl w)
+        · have hk := good_kids c f .resume .belowR (ih .resume) (ih .belowR) (kidsOf w x) w (w, false) (Good.refl w)
           generalize (kidsOf w x).foldl _ (w, false) = r at hk ⊢
           split
           · exact hk
@@ -781,6 +795,12 @@ theorem good_prop (c : Cfg) : ∀ (f : Nat) (m : Mode) (w : World) (x : Nat), Go
                     · exact hk.trans (h1.trans (Good.of_same rfl rfl))
                     · exact hk.trans (h1.trans (ih .update _ x))
                 · exact hk
+    | belowP =>
+      simp only [prop]
+      exact good_kids c f .pause .belowP (ih .pause) (ih .belowP) (kidsOf w x) w (w, false) (Good.refl w)
+    | belowR =>
+      simp only [prop]
+      exact good_kids c f .resume .belowR (ih .resume) (ih .belowR) (kidsOf w x) w (w, false) (Good.refl w)
     | update =>
       simp only [prop]
       split
@@ -817,20 +837,15 @@ theorem good_step (c : Cfg) (w : World) (ev : Event) : Good w (step c w ev) := b
     · cases h : stopOne w a s (.op msg) with
       | none => exact Good.refl w
       | some w' => exact good_stopOne w w' a s _ h
-  | lose it =>
-    simp only [step]
-    split
-    · exact Good.refl w
-    · exact Good.of_same rfl rfl
   | pause a =>
     simp only [step]
     split
-    · exact Good.of_same rfl rfl
+    · exact Good.refl w
     · exact good_prop c _ .pause w a
   | resume a =>
     simp only [step]
     split
-    · exact Good.of_same rfl rfl
+    · exact Good.refl w
     · exact good_prop c _ .resume w a
   | execute t ok =>
     simp only [step]
